@@ -5,7 +5,13 @@
 // Oracle part ("Generic" records, losses with transcendental kernels): central differences / tolerance inequalities computed
 // here and asserted by the trace specification (environment predicates).
 #include "counting.h"
+#include "tabledata.h"
 #include "trace.h"
+#include <nano/dataset.h>
+#include <nano/dataset/iterator.h>
+#include <nano/generator/elemwise_identity.h>
+#include <nano/gboost/function.h>
+#include <nano/linear/function.h>
 #include <nano/function/util.h>
 #include <nano/loss.h>
 #include <nano/loss/pinball.h>
@@ -207,7 +213,7 @@ constraint_t make_constraint(vt::Rng& rng, int kind, tensor_size_t n, std::strin
 // ---- float oracles for arbitrary registered functions (environment predicates)
 struct oracle_t
 {
-    bool   gradOK{true}, convexOK{true}, valueSame{true}, differentiable{false};
+    bool   gradOK{true}, convexOK{true}, strongOK{true}, valueSame{true}, differentiable{false};
     double graderr{0}, convexgap{0};
 };
 
@@ -234,11 +240,14 @@ oracle_t generic_oracle(vt::Rng& rng, const function_t& f, bool check_grad)
     }
     if (f.convex())
     {
-        const auto dz  = z - x;
-        const auto rhs = fx + g.dot(dz) + 0.5 * f.strong_convexity() * dz.squaredNorm();
-        const auto tol = 1e-9 * (1.0 + std::fabs(fx) + std::fabs(fz) + std::fabs(g.dot(dz)) + f.strong_convexity() * dz.squaredNorm());
-        o.convexgap    = (rhs - fz) / (tol * 1e9);
-        o.convexOK     = fz >= rhs - tol;
+        // first-order inequality: plain convexity, and with the declared strong-convexity coefficient
+        const auto dz   = z - x;
+        const auto rhs0 = fx + g.dot(dz);
+        const auto rhs  = rhs0 + 0.5 * f.strong_convexity() * dz.squaredNorm();
+        const auto tol  = 1e-9 * (1.0 + std::fabs(fx) + std::fabs(fz) + std::fabs(g.dot(dz)) + f.strong_convexity() * dz.squaredNorm());
+        o.convexgap     = (rhs - fz) / (tol * 1e9);
+        o.convexOK      = fz >= rhs0 - tol;
+        o.strongOK      = fz >= rhs - tol;
     }
     if (!check_grad)
     {
@@ -485,6 +494,68 @@ void loss_case(vt::Rng& rng, const std::string& id, int64_t kase)
         vt::put(j);
     }
 }
+
+// ---- machine-learning objectives over a random dataset (1..4 target values, scalar and categorical inputs with missing values): the
+// linear objective with any loss and regularisation, the gradient-boosting bias objective - the generic oracles (environment predicates)
+void ml_case(vt::Rng& rng, int64_t kase)
+{
+    const auto n = rng.range(8, 40), tsize = rng.range(1, 4);
+    std::vector<vt::column_t> columns;
+    for (int64_t c = 0, nc = rng.range(1, 4); c < nc; ++c)
+    {
+        auto col = vt::make_scalar_column("x" + std::to_string(c), feature_type::float64, n);
+        for (int64_t i = 0; i < n; ++i)
+        {
+            col.flat[static_cast<size_t>(i)]    = rng.uniform(-2.0, 2.0);
+            col.missing[static_cast<size_t>(i)] = static_cast<char>(rng.coin(1, 8));
+        }
+        columns.push_back(col);
+    }
+    if (rng.coin())
+    {
+        auto col = vt::make_sclass_column("c", 3, n);
+        for (int64_t i = 0; i < n; ++i)
+        {
+            col.flat[static_cast<size_t>(i)] = static_cast<double>(rng.range(0, 2));
+        }
+        columns.push_back(col);
+    }
+    auto y = tsize == 1 ? vt::make_scalar_column("y", feature_type::float64, n) : vt::make_struct_column("y", feature_type::float64, make_dims(tsize, 1, 1), n);
+    for (auto& v : y.flat)
+    {
+        v = rng.coin() ? 1.0 : -1.0; // +-1 targets are meaningful for regression and classification losses alike
+        v *= rng.coin(1, 3) ? rng.uniform(0.5, 2.0) : 1.0;
+    }
+    columns.push_back(y);
+    vt::table_datasource_t source(n, columns, columns.size() - 1U);
+    source.load();
+    dataset_t dataset(source, static_cast<size_t>(rng.range(1, 4)));
+    dataset.add<sclass_identity_generator_t>();
+    dataset.add<scalar_identity_generator_t>();
+    dataset.add<struct_identity_generator_t>();
+    const auto samples = arange(0, n);
+    const auto ids     = loss_t::all().ids();
+    const auto lossid  = ids[static_cast<size_t>(rng.range(0, static_cast<int64_t>(ids.size()) - 1))];
+    const auto loss    = loss_t::all().get(lossid);
+
+    auto it = flatten_iterator_t{dataset, samples};
+    it.batch(rng.pick(std::vector<tensor_size_t>{3, 16, 1000}));
+    it.scaling(rng.pick(std::vector<scaling_type>{scaling_type::none, scaling_type::standard}));
+    const auto l1 = rng.coin() ? 0.0 : rng.uniform(0.01, 3.0), l2 = rng.coin() ? 0.0 : rng.uniform(0.01, 3.0);
+    const auto linear = linear::function_t{it, *loss, l1, l2};
+    const auto o      = generic_oracle(rng, linear, linear.smooth());
+    vt::put(vt::J("Generic").s("fn", "linear-objective:" + lossid).i("dims", linear.size()).b("convex", linear.convex()).b("smooth", linear.smooth()).b("gradOK", o.gradOK)
+                .b("differentiable", o.differentiable).b("convexOK", o.convexOK).b("strongOK", o.strongOK).b("l2", l2 > 0.0).b("valueOnlySame", true).i("graderr_e12", static_cast<int64_t>(std::min(o.graderr * 1e12, 2e9)))
+                .i("case", kase));
+
+    auto tit = targets_iterator_t{dataset, samples};
+    tit.batch(rng.pick(std::vector<tensor_size_t>{3, 16, 1000}));
+    const auto bias = gboost::bias_function_t{tit, *loss};
+    const auto ob   = generic_oracle(rng, bias, bias.smooth());
+    vt::put(vt::J("Generic").s("fn", "gboost-bias:" + lossid).i("dims", bias.size()).b("convex", bias.convex()).b("smooth", bias.smooth()).b("gradOK", ob.gradOK)
+                .b("differentiable", ob.differentiable).b("convexOK", ob.convexOK).b("strongOK", ob.strongOK).b("valueOnlySame", true).i("graderr_e12", static_cast<int64_t>(std::min(ob.graderr * 1e12, 2e9)))
+                .i("case", kase));
+}
 } // namespace
 
 int main(int argc, char** argv)
@@ -565,6 +636,8 @@ int main(int argc, char** argv)
         {
             loss_case(rng, id, kase);
         }
+        // (4b) machine-learning objectives
+        ml_case(rng, kase);
         // (5) float oracles over the registered function prototypes (a third of them per case), any dimension in 1..32
         for (const auto& id : fun_ids)
         {
@@ -588,7 +661,7 @@ int main(int argc, char** argv)
             }
             const auto o = generic_oracle(rng, *f, f->smooth());
             vt::put(vt::J("Generic").s("fn", id).i("dims", f->size()).b("convex", f->convex()).b("smooth", f->smooth()).b("gradOK", o.gradOK).b("differentiable", o.differentiable)
-                        .b("convexOK", o.convexOK).b("valueOnlySame", o.valueSame).i("graderr_e12", static_cast<int64_t>(std::min(o.graderr * 1e12, 2e9)))
+                        .b("convexOK", o.convexOK).b("strongOK", o.strongOK).b("valueOnlySame", o.valueSame).i("graderr_e12", static_cast<int64_t>(std::min(o.graderr * 1e12, 2e9)))
                         .i("case", kase));
         }
     }
